@@ -180,7 +180,16 @@ func tryMatrix(yield func(Case) bool) {
 			}
 			for shape := 0; shape < 9; shape++ {
 				for _, oth := range []bool{false, true} {
-					for _, fin := range []bool{false, true} {
+					// finally: absent / runs to its end / leaves early by a control statement of its own (which must not
+					// replace an error, return, break or continue that is leaving the try statement)
+					for _, finKind := range []string{"", "mark", "break", "continue", "return"} {
+						if (finKind == "break" || finKind == "continue") && (encl == "top" || encl == "func") {
+							continue
+						}
+						if finKind == "return" && (encl == "top" || encl == "loop") {
+							continue
+						}
+						fin := finKind != ""
 						n := 0
 						try := &lang.S{K: "try"}
 						try.Body = []*lang.S{mk(&n)}
@@ -234,6 +243,14 @@ func tryMatrix(yield func(Case) bool) {
 						}
 						if fin {
 							try.Fin = &lang.Block{Body: []*lang.S{mk(&n)}}
+							switch finKind {
+							case "break":
+								try.Fin.Body = append(try.Fin.Body, lang.Break(), mk(&n))
+							case "continue":
+								try.Fin.Body = append(try.Fin.Body, lang.Continue(), mk(&n))
+							case "return":
+								try.Fin.Body = append(try.Fin.Body, lang.Return(lang.Num("99")), mk(&n))
+							}
 						}
 						inner := []*lang.S{mk(&n), try, mk(&n)}
 						var body []*lang.S
@@ -262,7 +279,6 @@ func tryMatrix(yield func(Case) bool) {
 		}
 	}
 }
-
 
 // exhaustive: every construct with per-node run-time state (return signal, loop iterator, caught error, try
 // bookkeeping) is left "in flight" while the SAME statements are entered again through a recursive call, at
@@ -338,7 +354,7 @@ func TestExhaustive(t *testing.T) {
 	hx.Enumerate(t, "reentry-matrix", reentryMatrix, runCase)
 	hx.E.Exhaustive("reentry-matrix", "10 constructs with per-node run-time state (return in try/finally, range / list / condition loops, except handler, otherwise, try body) whose body calls the enclosing function again x {result observed, not observed} x recursion depth 1..3")
 	hx.Enumerate(t, "try-matrix", tryMatrix, runCase)
-	hx.E.Exhaustive("try-matrix", "exit kind {fallthrough, break, continue, return, raise listed, raise unlisted, runtime error, raise inside a list literal (not the last item), runtime error inside a map literal (not the last entry)} x 9 except-clause shapes x {otherwise} x {finally} x enclosing construct {top level, loop, function, loop in function}")
+	hx.E.Exhaustive("try-matrix", "exit kind {fallthrough, break, continue, return, raise listed, raise unlisted, runtime error, raise inside a list literal (not the last item), runtime error inside a map literal (not the last entry)} x 9 except-clause shapes x {otherwise} x finally {absent, runs to its end, leaves early by break / continue / return} x enclosing construct {top level, loop, function, loop in function}")
 }
 
 func TestProp(t *testing.T) {
